@@ -6,7 +6,8 @@ Writes the outcome into seeded/<name>/meta.json ("check") and the table seeded/R
 import json, os, re, subprocess, sys, time
 ROOT = "/verif"
 JOBS = ["--jobs", os.environ.get("SEED_JOBS", "16")]
-names = [a for a in sys.argv[1:]] or sorted(d for d in os.listdir(f"{ROOT}/seeded") if os.path.isdir(f"{ROOT}/seeded/{d}"))
+TABLE_ONLY = "--table-only" in sys.argv
+names = [a for a in sys.argv[1:] if not a.startswith("--")] or sorted(d for d in os.listdir(f"{ROOT}/seeded") if os.path.isdir(f"{ROOT}/seeded/{d}"))
 import tempfile, atexit
 WT = tempfile.mkdtemp(prefix="seedmx_", dir="/tmp")   # scratch worktree of /repo HEAD, removed at exit; /repo itself is never touched
 subprocess.run(["git", "-C", "/repo", "worktree", "add", "-q", "--detach", "--force", WT, "HEAD"], check=True)
@@ -15,7 +16,7 @@ OUTD = tempfile.mkdtemp(prefix="seedmx_out_", dir="/tmp")
 atexit.register(lambda: __import__("shutil").rmtree(OUTD, ignore_errors=True))
 ENV = dict(os.environ, VERIF_REPO=WT, VERIF_OUT=OUTD)
 head = subprocess.run(["git", "-C", "/repo", "rev-parse", "--short", "HEAD"], capture_output=True, text=True).stdout.strip()
-for n in names:
+for n in ([] if TABLE_ONLY else names):
     d = f"{ROOT}/seeded/{n}"
     meta = json.load(open(f"{d}/meta.json"))
     prop = meta["property"]
